@@ -179,6 +179,9 @@ func (cr *CheckRun) RunEntries(bin string, entries []CorpusEntry, expectGenError
 	var wg sync.WaitGroup
 	for _, ce := range entries {
 		ce := ce
+		if only := os.Getenv("GOAGVC_ONLY"); only != "" && !strings.Contains(ce.Name, only) {
+			continue
+		}
 		wg.Add(1)
 		sem <- struct{}{}
 		go func() {
@@ -333,6 +336,16 @@ func (cr *CheckRun) CheckParams(entries []CorpusEntry) {
 	if err != nil {
 		cr.EngineErrors = append(cr.EngineErrors, err.Error())
 		return
+	}
+	// lemma used by the path-parameter reference (proved here, assumed there)
+	cr.Obligations++
+	if r := Solve(SegatLemmaScript(), cr.Scratch, "lemma-segat-index", 20); r.Status == "unsat" {
+		cr.Discharged++
+		cr.ProvedNames = append(cr.ProvedNames, "lemma#segat-index")
+		cr.Samples = append(cr.Samples, map[string]any{"obligation": "lemma#segat-index", "status": "proved", "solver": r.Solver, "what": "segat(s,i) == (Index(s[i+1:], \"/\") == -1 ? len(s) : i+1+Index(s[i+1:], \"/\"))"})
+	} else {
+		o := &Obligation{Name: "lemma#segat-index", Func: "spec", Class: "lemma", Props: []string{cr.Prop}, Status: "failed", Formula: "segat/Index lemma", Model: r.Output}
+		cr.Failures = append(cr.Failures, &Failure{Prop: cr.Prop, Obl: o, Entry: "spec", Verdict: "violation"})
 	}
 	cr.RunEntries(bin, entries, false, func(name string) bool {
 		return strings.HasPrefix(name, "new") && strings.HasSuffix(name, "Params")
